@@ -27,9 +27,15 @@ type walCfg struct {
 	MaxSize uint64 `json:"max_size"`
 	Comp    int    `json:"comp"`
 	WBuf    int    `json:"wbuf"`
+	// Facade: the log is driven through wal.NewWriteAheadLog with the default writer and reader factories of
+	// NewWriteAheadLogOptions (Comp and WBuf are then the library's defaults)
+	Facade bool `json:"facade,omitempty"`
 }
 
 func (c walCfg) options(dir string) (*wal.Options, error) {
+	if c.Facade {
+		return wal.NewWriteAheadLogOptions(wal.BasePath(dir), wal.MaximumWalFileSizeBytes(c.MaxSize))
+	}
 	return wal.NewWriteAheadLogOptions(wal.BasePath(dir), wal.MaximumWalFileSizeBytes(c.MaxSize),
 		wal.WriterFactory(func(path string) (recordio.WriterI, error) {
 			return recordio.NewFileWriter(recordio.Path(path), recordio.CompressionType(c.Comp), recordio.BufferSizeBytes(c.WBuf))
@@ -91,7 +97,12 @@ func runWalOps(cfg walCfg, ops []walOp, dir string, ack *ackWriter) error {
 	if err != nil {
 		return err
 	}
-	a, err := wal.NewAppender(opts)
+	var a wal.WriteAheadLogAppendI
+	if cfg.Facade {
+		a, err = wal.NewWriteAheadLog(opts)
+	} else {
+		a, err = wal.NewAppender(opts)
+	}
 	if err != nil {
 		return err
 	}
@@ -456,6 +467,9 @@ func (c *c07Case) Nontrivial() bool {
 }
 func (c *c07Case) Kind() string {
 	k := fmt.Sprintf("comp=%d/wbuf=%d", c.Cfg.Comp, c.Cfg.WBuf)
+	if c.Cfg.Facade {
+		k = "facade-defaults"
+	}
 	if c.Crash {
 		k += "/crash"
 	}
@@ -472,10 +486,15 @@ func genC07(r *rand.Rand, tier string) []Case {
 		c := &c07Case{Cfg: walCfg{MaxSize: []uint64{9, 30, 100, 1000, 1 << 20}[r.Intn(5)], Comp: []int{0, 0, 2}[r.Intn(3)], WBuf: []int{1, 16, 64, 4096, 4 << 20}[r.Intn(5)]}}
 		c.Crash = i < ncrash
 		c.Cuts = i%4 == 1
+		if i%7 == 5 || (c.Crash && i%4 == 3) {
+			c.Cfg.Facade, c.Cfg.Comp = true, 0
+		}
 		nops := 1 + r.Intn(40)
 		if c.Crash {
 			nops = 3 + r.Intn(10)
-			c.Cfg.WBuf = []int{16, 64, 4096}[i%3]
+			if !c.Cfg.Facade {
+				c.Cfg.WBuf = []int{16, 64, 4096}[i%3]
+			}
 			c.Cfg.MaxSize = []uint64{60, 200, 1 << 20}[i%3]
 		}
 		for j := 0; j < nops; j++ {
@@ -510,7 +529,7 @@ func init() {
 		ID: "C07", Num: 7,
 		Gen:  genC07,
 		New:  func() Case { return &c07Case{} },
-		Rule: "logs of 1-40 Append/AppendSync/Rotate operations (empty records, records larger than the file size limit and the write buffer, marker bytes), maximum file sizes {9,30,100,1000,1Mi}, write buffers {1,16,64,4096,4Mi}, compression none/snappy; the closed log is replayed; a few programs (4 quick, 60 thorough) additionally run in a child under strace and the real replayer runs on the directory image of EVERY boundary between two mutating system calls. Non-trivial: >=3 operations and >=2 files.",
+		Rule: "logs of 1-40 Append/AppendSync/Rotate operations (empty records, records larger than the file size limit and the write buffer, marker bytes), maximum file sizes {9,30,100,1000,1Mi}, write buffers {1,16,64,4096,4Mi}, compression none/snappy, and a seventh of the logs through the wal.NewWriteAheadLog facade with its default factories; the closed log is replayed; a few programs (4 quick, 60 thorough) additionally run in a child under strace and the real replayer runs on the directory image of EVERY boundary between two mutating system calls. Non-trivial: >=3 operations and >=2 files.",
 	})
 	_ = hex.EncodeToString
 }
